@@ -504,6 +504,21 @@ def do_op(ctx, aid, oi, table, op):
                 ctx.w.signal(p, SIGS[op[2]])
                 return ("ok", p.name)
         return ("noproc",)
+    if k == "alloc_make":
+        # the documented two-step form: allocate the id for a spec object first, create the gateway later
+        spec = ctx.w.mods["xspec"].XSpec(op[1])
+        ctx.group.allocate_id(spec)
+        allocated = str(spec.id)
+        for _ in range(op[2] if len(op) > 2 else 0):
+            s.switch("yield", "")
+        try:
+            gw = ctx.group.makegateway(spec)
+        except Exception as e:  # noqa: BLE001
+            return ("alloc-failed", allocated, type(e).__name__, str(e)[:200])
+        ctx.gws.append(gw)
+        t2 = ctx.table((s.current.proc.pid, len(ctx.gws) - 1))
+        t2["__gw__"] = gw
+        return ("gw", str(gw.id), allocated)
     if k == "makegateway":
         gw = ctx.group.makegateway(op[1])
         ctx.gws.append(gw)
@@ -528,9 +543,17 @@ def do_op(ctx, aid, oi, table, op):
             gw = ctx.group[op[1]]
         except KeyError:
             return ("nogw",)
-        gw.exit()
+        try:
+            gw.exit()
+        except AttributeError:
+            # (looked up while another task was still registering it: Group._register appends to the member list
+            # before it sets gateway._group - seen in passing, outside the listed properties)
+            return ("half-registered",)
         if op[-1] == "twice":
-            gw.exit()  # documented as harmless
+            try:
+                gw.exit()  # the gateway is no member any more: "already unregistered", a no-op
+            except Exception as e:  # noqa: BLE001
+                return ("second-exit-raised", type(e).__name__, str(e)[:200])
         return ("ok",)
     if k == "groupsnap":
         # one consistent look at the container protocol (no sync point and no line preemption inside)
